@@ -1,8 +1,8 @@
 SPECIFICATION Spec
 CONSTANT Depth = 3
-CONSTANT DcShift = "4294966295"
+CONSTANT DcShift = "0"
 CONSTANT Hook = FALSE
 CONSTANT Side = "client"
-CONSTANT Mms = 0
+CONSTANT Mms = 200
 INVARIANT Emit
 CHECK_DEADLOCK FALSE
